@@ -289,3 +289,10 @@ impl Drop for LocustDB {
         self.inner_locustdb.stop();
     }
 }
+
+#[cfg(locustdb_verif)]
+impl LocustDB {
+    pub fn verif_inner(&self) -> &Arc<InnerLocustDB> {
+        &self.inner_locustdb
+    }
+}
